@@ -11,6 +11,7 @@ P16 == P12 \cup PCls
 PQ == { <<"/", "a">>, <<"/", "a", "/", "b">>, <<"/", "a", "/", "LOW">>, <<"/", "LOW", "/", "b">>, <<"/", "a", "AS">>,
         <<"/", "A", "/", "LOW">>, <<"/", "A", "/", "b">>, <<"/", "a", "/", "CLS", "/", "b">> }
 PUp == P12 \cup PCls \cup { <<"/", "A", "/", "LOW">>, <<"/", "A", "/", "b">>, <<"/", "A", "LOW">> }
+PQCls == PQ \cup PCls
 
 \* non-ASCII text in the shared prefix, as a literal and inside a group (character count # byte count)
 PNa == { <<"/", "~e~", "/", "a">>, <<"/", "~e~", "/", "b">>, <<"/", "~e~", "/", "LOW">>, <<"/", "ELW", "/", "a">>, <<"/", "ELW", "/", "b">>, <<"/", "a">> }
